@@ -141,6 +141,71 @@ pub struct Access {
     pub declared: Vec<u8>,
 }
 
+/// While `fetch()` runs, every resource the shape does not declare is held exclusively and every
+/// resource it declares as read-only is held shared: a temporary undeclared (or stronger than
+/// declared) borrow inside fetch() then shows as a borrow panic. `registered`: storages made known
+/// by `register` (true) or only by `SystemData::setup` (false).
+fn fetch_under_guard<F: Fam>(registered: bool) -> Option<String> {
+    let ids = res_ids();
+    let reads = <F::Data<'static> as SystemData>::reads();
+    let writes = <F::Data<'static> as SystemData>::writes();
+    for (i, id) in ids.iter().enumerate() {
+        let mut w = if registered {
+            new_world()
+        } else {
+            let mut w = World::new();
+            <(ReadStorage<X>, ReadStorage<Y>, ReadStorage<Z>) as SystemData>::setup(&mut w);
+            // nothing has been fetched from this world yet
+            w
+        };
+        <F::Data<'static> as SystemData>::setup(&mut w);
+        let declared_w = writes.contains(id);
+        let declared_r = reads.contains(id);
+        if declared_w {
+            continue;
+        }
+        macro_rules! hold {
+            ($t:ty) => {{
+                if declared_r {
+                    let _g = w.fetch::<$t>();
+                    catch(|| {
+                        let _d = <F::Data<'_> as SystemData>::fetch(&w);
+                    })
+                } else {
+                    let _g = w.fetch_mut::<$t>();
+                    catch(|| {
+                        let _d = <F::Data<'_> as SystemData>::fetch(&w);
+                    })
+                }
+            }};
+        }
+        let r = match i {
+            0 => hold!(EntitiesRes),
+            1 => hold!(MaskedStorage<X>),
+            2 => hold!(MaskedStorage<Y>),
+            3 => hold!(MaskedStorage<Z>),
+            4 => hold!(LazyUpdate),
+            _ => hold!(MetaTable<dyn AnyStorage>),
+        };
+        if let Err(m) = r {
+            return Some(format!(
+                "declared-vs-borrowed: fetch() of {} ({}) touches {} {} although it declares {} ({})",
+                F::NAME,
+                if registered { "storages registered" } else { "storages created by setup only" },
+                RES[i],
+                if declared_r { "exclusively" } else { "at all" },
+                if declared_r { "only a read" } else { "nothing" },
+                m.lines().next().unwrap_or("")
+            ));
+        }
+    }
+    None
+}
+
+fn shape_guard<F: Fam>(registered: bool) -> Option<String> {
+    fetch_under_guard::<F>(registered)
+}
+
 fn shape_access<F: Fam>(_: ()) -> Access {
     let w = new_world();
     let before = probe(&w);
@@ -669,6 +734,13 @@ pub fn main() {
                     failed = Some(m);
                 }
             }
+            for i in 0..N_SHAPES {
+                for registered in [true, false] {
+                    if let Some(m) = with_shape!(i, shape_guard, registered) {
+                        failed = Some(m);
+                    }
+                }
+            }
         } else {
             let g: Graph = serde_json::from_value(v["graph"].clone()).unwrap_or_else(|e| machinery_error(&format!("bad graph: {e}")));
             let st = stages_of(&g).unwrap_or_else(|e| machinery_error(&e));
@@ -700,6 +772,14 @@ pub fn main() {
         if a.actual != a.declared {
             let show = |v: &Vec<u8>| -> String { v.iter().enumerate().filter(|(_, b)| **b != 0).map(|(i, b)| format!("{}:{}", RES.get(i).copied().unwrap_or("<other>"), match b { 1 => "shared", 2 => "exclusive", _ => "undeclared-resource" })).collect::<Vec<_>>().join(",") };
             findings.push(Finding { key: format!("declared-vs-borrowed|{}", a.name), oracle: format!("declared-vs-borrowed: {} declares [{}] but fetch() borrows [{}]", a.name, show(&a.declared), show(&a.actual)), replay: json!({"engine": "mc-disp", "part": "a", "shape": a.name}) });
+        }
+    }
+    for i in 0..N_SHAPES {
+        for registered in [true, false] {
+            shapes_checked += 1;
+            if let Some(m) = with_shape!(i, shape_guard, registered) {
+                findings.push(Finding { key: format!("declared-vs-borrowed-during-fetch|{}|{}", acc[i].name, registered), oracle: m, replay: json!({"engine": "mc-disp", "part": "a", "shape": acc[i].name}) });
+            }
         }
     }
     for (name, _r, _w, bad) in kinds_part_a() {
